@@ -1,6 +1,6 @@
 #!/usr/bin/env python3
 """Intake of an independently written behaviour-preserving refactoring (sub-agent output):
-  refac_intake.py <src_dir containing patch.diff notes.md> <name>
+  refac_intake.py <src_dir containing patch.diff notes.md> <name> [<demo.sh that must pass on the patched tree>]
 Confirms in a fresh scratch worktree that it applies, builds and passes the pinned suite, then stores it under
 selftest/equivalents/ALL/<name>.patch (+ .notes.md) and evaluates every claimed check against it: none may alarm."""
 import os, sys, subprocess, shutil, tempfile, json
@@ -33,6 +33,14 @@ def main():
         if not ok:
             print("%s: REJECTED (tests: %d passed)\n%s" % (name, passed, outt[-500:]))
             return 1
+        if len(sys.argv) > 3:
+            # a demonstration that must PASS on this tree (the repaired twin of a seeded change: same refactoring, break removed)
+            demo = sys.argv[3]
+            sh("cargo build --offline 2>&1 | tail -1", cwd=wt, env=env)
+            rcd, outd = sh("sh %s %s" % (demo, wt), cwd=os.path.dirname(demo), env=dict(env, SFS_ALLOW_STDIN="1"))
+            if rcd != 0:
+                print("%s: REJECTED (the demonstration still fails on the repaired tree: exit %d)\n%s" % (name, rcd, outd[-400:]))
+                return 1
         tmp = tempfile.mkdtemp(prefix="sfsrefacchk.")
         scratch = os.path.join(tmp, "repo")
         shutil.copytree(wt, scratch, ignore=shutil.ignore_patterns("target", ".git", "_refac", "_seeded"))
